@@ -122,10 +122,17 @@ class C12:
             site = f"{self.file}:{s.node.lineno} {fname}"
             g1, g2 = ("param", s.params[0]), ("param", s.params[1])
             B1, B2 = ("call", cb, (g1,), ()), ("call", cb, (g2,), ())
-            if len(s.returns) != 1 or s.returns[0].term[0] != "call" or s.returns[0].term[1] != ("global", f"{OPS}:intervals_overlap", "func"):
-                ctx.undec("R12.4", site, "does not return intervals_overlap(...)")
+            deleg = [r for r in s.returns if r.term[0] == "call" and r.term[1] == ("global", f"{OPS}:intervals_overlap", "func")]
+            other = [r for r in s.returns if r not in deleg]
+            if other or len(deleg) != 1 or s.raises:
+                o = (other or s.raises or s.returns)[0]
+                ctx.bad("R12.4", self.file, fname, f"return {show(o.term)[:60]} under {show(o.live)[:60]}",
+                        f"{fname} must equal intervals_overlap on the {what} extents for every input, but it also returns/raises "
+                        f"`{show(o.term)[:60]}` when `{show(o.live)[:80]}`: thresholds (and their validation) are bypassed on that path",
+                        o.lineno)
                 continue
-            b, extra, _, _ = bind_args(s.returns[0].term, io.params)
+            s_ret = deleg[0]
+            b, extra, _, _ = bind_args(s_ret.term, io.params)
             w1 = ("tuple", (("sub", B1, ("const", lo)), ("sub", B1, ("const", hi))))
             w2 = ("tuple", (("sub", B2, ("const", lo)), ("sub", B2, ("const", hi))))
             got = {b.get(io.params[0]), b.get(io.params[1])}
